@@ -9,6 +9,10 @@ use vstd::prelude::*;
 use core::marker::PhantomData;
 use core::ops::{Bound, ControlFlow};
 use core::alloc::Allocator;
+// path spellings of the source files (`deser::Error`, `ser::Result`, ...) resolve inside the
+// unit as they do in the crate: a change that merely writes a path differently stays decidable
+mod deser { pub use super::{Error, Result}; }
+mod ser { pub use super::SError as Error; pub use super::SResult as Result; }
 verus! {
 
 global size_of usize == 8;
